@@ -463,3 +463,1059 @@ Proof.
   - eapply step_inv2_slot1; eauto.
   - eapply step_inv2_sync; eauto.
 Qed.
+
+(* ------------------------------------------------------------------------------------------ *)
+(* Tier 2b: who holds whose payload (ghost field [taken]) *)
+
+Lemma total_add n f g : total n (fun x => f x + g x) = total n f + total n g.
+Proof. induction n; simpl; [reflexivity|]. rewrite IHn. lia. Qed.
+
+Lemma cnt_tc_split k l : cnt (isTc k) l = cnt (isTcc k true) l + cnt (isTcc k false) l.
+Proof.
+  induction l as [|m l IH]; [reflexivity|]. rewrite !cnt_cons, IH.
+  destruct m; simpl; try lia. destruct (Nat.eqb k0 k), c; simpl; lia.
+Qed.
+
+Lemma pendf_tc_split k n f : pendf (isTc k) n f = pendf (isTcc k true) n f + pendf (isTcc k false) n f.
+Proof.
+  unfold pendf. rewrite <- total_add. apply total_ext. intros t _. apply cnt_tc_split.
+Qed.
+
+Definition holds s x i := slot s x = Some (payload_res s i) \/ tres s x = Some (payload_res s i).
+Definition acc s i := exists x, holds s x i.
+Definition ptcc s k c := pend (isTcc k c) s.
+Definition is_try_kind k := match k with TTryCall | TTryAccept => true | _ => false end.
+
+Record Inv3 (s : st) : Prop := {
+  i3_x : forall t k, In (MTc k true) (stk s t) -> is_caller_kind (kd s k) = true;
+  i3_l : forall t, cnt isLoop (stk s t) <= 1;
+  i3_t : forall t, tres s t <> None -> cnt isLoop (stk s t) = 0;
+  i3_d : forall i r, is_caller_kind (kd s i) = true -> slot s i = Some r -> r = RDone /\ comp s i = 1;
+  i3_h1 : forall x i, holds s x i -> taken s i = Some x;
+  i3_h2 : forall x i, taken s i = Some x -> holds s x i;
+  i3_a : forall i, is_caller_kind (kd s i) = true -> taken s i <> None ->
+           ptcc s i false + comp s i = 1 /\ slot s i = None;
+  i3_b : forall i, is_caller_kind (kd s i) = true -> ptcc s i false = 1 -> taken s i <> None;
+  i3_c : forall i, is_caller_kind (kd s i) = true -> comp s i = 1 -> slot s i = None -> taken s i <> None;
+  i3_e1 : forall t, kd s t = TTryCall -> taken s t <> None -> tres s t = Some RValue;
+  i3_e2 : forall t, kd s t = TTryCall -> tres s t = Some RValue -> taken s t <> None;
+  i3_k : forall i x, taken s i = Some x -> kd s x = TAccept \/ kd s x = TTryAccept
+}.
+
+Ltac unf3 := unfold holds, acc, payload_res, ptcc, phop, pchain, pre, inw, ptc, comp, party, pend, word_of, word_ok in *; norm.
+
+Lemma step_inv3_d t s s' e : Inv0 s -> Inv1 s -> Inv2 s -> Inv3 s -> step t s = Some (s', e) ->
+  forall i r, is_caller_kind (kd s' i) = true -> slot s' i = Some r -> r = RDone /\ comp s' i = 1.
+Proof.
+  intros I0 I1 I2 I3 H. begin_step H I0.
+  all: intros k0 r0; pose proof (i3_d s I3 k0 r0) as Hh; pose proof (i1_w s I1) as Hw0.
+  all: unf3; intros Hck; specialize (Hh Hck).
+  all: try exact Hh.
+  all: unfold upd in *; case_eqb; try exact Hh.
+  all: split_w; case_eqb; kinds; try discriminate; try congruence.
+  all: kill_ifs_all; kinds; try discriminate; try congruence; try exact Hh.
+  all: try (intros HH; injection HH as <-; split; reflexivity).
+  all: intros HH; destruct (Hh HH); split; auto.
+Qed.
+
+Lemma step_inv3_x t s s' e : Inv0 s -> Inv3 s -> step t s = Some (s', e) ->
+  forall t0 k, In (MTc k true) (stk s' t0) -> is_caller_kind (kd s' k) = true.
+Proof.
+  intros I0 I3 H. begin_step H I0.
+  all: intros t0 k0; pose proof (i3_x s I3 t0 k0) as Hh; pose proof (i3_x s I3 t k0) as Hh';
+       unf3; try exact Hh; unfold upd; case_eqb; try exact Hh; rw_st.
+  all: kill_ifs; cbn [app In] in *; intros HH;
+       repeat match goal with H : _ \/ _ |- _ => destruct H end;
+       try discriminate; try (apply Hh'; right; assumption); try contradiction.
+  all: try (match goal with H : MTc _ _ = MTc _ _ |- _ => injection H as <- Hf end; try discriminate; try congruence).
+Qed.
+
+Lemma step_inv3_l t s s' e : Inv0 s -> Inv3 s -> step t s = Some (s', e) ->
+  forall t0, cnt isLoop (stk s' t0) <= 1.
+Proof.
+  intros I0 I3 H. begin_step H I0.
+  all: intros t0; pose proof (i3_l s I3 t0) as Hh; unf3; unfold upd; case_eqb; rw_st; simp_cnt; try lia.
+  all: kill_ifs_all; lia.
+Qed.
+
+Lemma step_inv3_t t s s' e : Inv0 s -> Inv3 s -> step t s = Some (s', e) ->
+  forall t0, tres s' t0 <> None -> cnt isLoop (stk s' t0) = 0.
+Proof.
+  intros I0 I3 H. begin_step H I0.
+  all: intros t0; pose proof (i3_t s I3 t0) as Hh; pose proof (i3_l s I3 t0) as Hl;
+       unf3; unfold upd; case_eqb; rw_st; simp_cnt; try exact Hh; try lia.
+  all: try (intros HH; specialize (Hh HH); lia).
+  all: kill_ifs_all; try lia.
+  all: intros HH; specialize (Hh HH); lia.
+Qed.
+
+(* slots are written once; a try thread's result is written once *)
+Lemma holds_persist t s s' e : Inv0 s -> Inv1 s -> Inv2 s -> Inv3 s -> step t s = Some (s', e) ->
+  forall x i, holds s x i -> holds s' x i.
+Proof.
+  intros I0 I1 I2 I3 H. begin_step H I0.
+  all: intros x0 i0; pose proof (i1_w s I1) as Hw0; pose proof (i2_slot0 s I2 x0) as Hs0;
+       pose proof (i1_u s I1 x0) as Hu; pose proof (i3_t s I3 x0) as Ht;
+       pose proof (fun r => i3_d s I3 x0 r) as Hd.
+  all: unf3; try (intros HH; exact HH).
+  all: unfold upd in *.
+  all: intros [HH|HH]; [left|right]; try exact HH.
+  all: case_eqb; try exact HH; rw_st; simp_cnt.
+  all: try (exfalso; rewrite HH in Ht; specialize (Ht ltac:(discriminate)); lia).
+  all: try (rewrite HH; reflexivity).
+  - destruct c; [|exact HH].
+    pose proof (i3_x s I3 t k ltac:(rewrite Hst; left; reflexivity)) as Hck.
+    destruct (Nat.eqb_spec x0 k) as [->|Hne]; [|exact HH].
+    destruct (Hd _ Hck HH) as [Hr _]. destruct (kd s i0); discriminate Hr.
+  - destruct (is_caller_kind (kd s k)) eqn:Eck; [exact HH|].
+    destruct (Nat.eqb_spec x0 k) as [->|Hne]; [|exact HH]. exfalso.
+    rewrite Eck in *. rewrite Hc in *. cbn [b2n] in *.
+    assert (slot s k = None) as Hn.
+    { apply Hs0. destruct (is_party_kind (kd s k)); cbn [b2n] in *; lia. }
+    rewrite Hn in HH. discriminate.
+Qed.
+
+Inductive done_mark {A} (a : A) (n : nat) : Prop := DM.
+Ltac pose_at H :=
+  repeat match goal with x : nat |- _ =>
+    lazymatch goal with
+    | _ : done_mark H x |- _ => fail
+    | _ => pose proof (H x); pose proof (DM H x)
+    end end;
+  repeat match goal with M : done_mark _ _ |- _ => clear M end.
+
+Lemma payload_inj s a b : payload_res s a = payload_res s b -> a = b.
+Proof. unfold payload_res. destruct (kd s a), (kd s b); congruence. Qed.
+
+
+Lemma payload_not_done s a : payload_res s a <> RDone.
+Proof. unfold payload_res. destruct (kd s a); discriminate. Qed.
+Lemma payload_not_value s a : payload_res s a <> RValue.
+Proof. unfold payload_res. destruct (kd s a); discriminate. Qed.
+
+Ltac unf3' := unfold holds, acc, ptcc, phop, pchain, pre, inw, ptc, comp, party, pend, word_of, word_ok in *; norm.
+
+Lemma ptcc_le s k c : ptcc s k c <= ptc s k.
+Proof.
+  unfold ptcc, ptc, pend. rewrite (pendf_tc_split k). destruct c; lia.
+Qed.
+
+Lemma inw_acc s j : Inv1 s -> Inv2 s -> w s = WAcceptor j ->
+  kd s j = TAccept /\ slot s j = None /\ ptc s j = 0 /\ ccomp s j = false /\ cnt isLoop (stk s j) = 0.
+Proof.
+  intros I1 I2 Hw. pose proof (i1_w s I1) as Hk. unfold word_ok in Hk. rewrite Hw in Hk.
+  pose proof (i1_u s I1 j) as Hu. pose proof (i2_slot0 s I2 j) as Hs.
+  unfold pre, inw, comp, party, word_of in *. rewrite Hk, Hw in *. simpl in *.
+  rewrite Nat.eqb_refl in *. simpl in *. destruct (ccomp s j); simpl in *; repeat split; try lia; auto.
+  apply Hs. lia.
+Qed.
+
+Lemma inw_call s i : Inv1 s -> Inv2 s -> w s = WCaller i ->
+  is_caller_kind (kd s i) = true /\ slot s i = None /\ ptc s i = 0 /\ ccomp s i = false /\ cnt isLoop (stk s i) = 0.
+Proof.
+  intros I1 I2 Hw. pose proof (i1_w s I1) as Hk. unfold word_ok in Hk. rewrite Hw in Hk.
+  pose proof (i1_u s I1 i) as Hu. pose proof (i2_slot0 s I2 i) as Hs.
+  pose proof (caller_party _ Hk) as Hp.
+  unfold pre, inw, comp, party, word_of in *. rewrite Hk, Hp, Hw in *. simpl in *.
+  rewrite Nat.eqb_refl in *. simpl in *. destruct (ccomp s i); simpl in *; repeat split; try lia; auto.
+  apply Hs. lia.
+Qed.
+
+Lemma pre_facts s t m rest : Inv1 s -> Inv2 s -> is_party_kind (kd s t) = true ->
+  stk s t = m :: rest -> isLoop m = true ->
+  slot s t = None /\ ptc s t = 0 /\ ccomp s t = false /\ w s <> word_of s t.
+Proof.
+  intros I1 I2 Hp Hst Hm.
+  pose proof (i1_u s I1 t) as Hu. pose proof (i2_slot0 s I2 t) as Hs.
+  unfold pre, inw, comp, party in *. rewrite Hp, Hst in *. rewrite cnt_cons, Hm in *.
+  destruct (word_eqb_spec (w s) (word_of s t)); destruct (ccomp s t); simpl in *; try lia.
+  repeat split; try lia; auto. apply Hs. lia.
+Qed.
+
+Lemma caller_not_taken s i : Inv3 s -> is_caller_kind (kd s i) = true -> ptc s i = 0 -> ccomp s i = false ->
+  taken s i = None.
+Proof.
+  intros I3 Hk Hp Hc. destruct (taken s i) eqn:E; [exfalso|reflexivity].
+  destruct (i3_a s I3 i Hk) as [Ha _]; [congruence|].
+  pose proof (ptcc_le s i false). unfold comp in Ha. rewrite Hc in Ha. simpl in Ha. lia.
+Qed.
+
+Lemma try_not_taken s t m rest : Inv3 s -> kd s t = TTryCall -> stk s t = m :: rest -> isLoop m = true ->
+  taken s t = None.
+Proof.
+  intros I3 Hk Hst Hm. destruct (taken s t) eqn:E; [exfalso|reflexivity].
+  assert (tres s t = Some RValue) as Hr by (apply (i3_e1 s I3 t Hk); congruence).
+  pose proof (i3_t s I3 t ltac:(congruence)) as Hz. rewrite Hst, cnt_cons, Hm in Hz. lia.
+Qed.
+
+Lemma step_inv3_h1 t s s' e : Inv0 s -> Inv1 s -> Inv2 s -> Inv3 s -> step t s = Some (s', e) ->
+  forall x i, holds s' x i -> taken s' i = Some x.
+Proof.
+  intros I0 I1 I2 I3 H. begin_step H I0.
+  all: intros x0 i0; pose proof (i3_h1 s I3 x0 i0) as Hh.
+  all: unfold holds in *; norm.
+  all: try exact Hh.
+  all: change (payload_res _ i0) with (payload_res s i0).
+  all: unfold upd.
+  (* a slot or a try result overwritten with done / value *)
+  all: try (intros [HH|HH]; apply Hh; [left|right]; revert HH; kill_ifs; case_eqb; intros HH;
+            try exact HH; try (injection HH as HH; symmetry in HH; apply payload_not_done in HH; contradiction);
+            fail).
+  all: match goal with Hc : word_eqb (w ?s) ?v = true |- _ =>
+         destruct (word_eqb_spec (w s) v) as [Hw|]; [|discriminate Hc] end.
+  - (* call t claims acceptor j *)
+    destruct (inw_acc s j I1 I2 Hw) as (Hkj & Hsj & _).
+    destruct (pre_facts s t _ _ I1 I2 ltac:(rewrite Hk; reflexivity) Hst eq_refl) as (_ & Hpt & Hct & _).
+    pose proof (caller_not_taken s t I3 ltac:(rewrite Hk; reflexivity) Hpt Hct) as Hnt.
+    rewrite Hsj. intros [HH|HH].
+    + destruct (Nat.eqb_spec x0 j) as [->|Hne].
+      * injection HH as HH. apply payload_inj in HH. subst i0. now rewrite Nat.eqb_refl.
+      * specialize (Hh (or_introl HH)). destruct (Nat.eqb_spec i0 t) as [->|]; [congruence|exact Hh].
+    + specialize (Hh (or_intror HH)). destruct (Nat.eqb_spec i0 t) as [->|]; [congruence|exact Hh].
+  - (* throw t claims acceptor j *)
+    destruct (inw_acc s j I1 I2 Hw) as (Hkj & Hsj & _).
+    destruct (pre_facts s t _ _ I1 I2 ltac:(rewrite Hk; reflexivity) Hst eq_refl) as (_ & Hpt & Hct & _).
+    pose proof (caller_not_taken s t I3 ltac:(rewrite Hk; reflexivity) Hpt Hct) as Hnt.
+    rewrite Hsj. intros [HH|HH].
+    + destruct (Nat.eqb_spec x0 j) as [->|Hne].
+      * injection HH as HH. apply payload_inj in HH. subst i0. now rewrite Nat.eqb_refl.
+      * specialize (Hh (or_introl HH)). destruct (Nat.eqb_spec i0 t) as [->|]; [congruence|exact Hh].
+    + specialize (Hh (or_intror HH)). destruct (Nat.eqb_spec i0 t) as [->|]; [congruence|exact Hh].
+  - (* accept t claims caller i *)
+    destruct (inw_call s i I1 I2 Hw) as (Hki & _ & Hpi & Hci & _).
+    pose proof (caller_not_taken s i I3 Hki Hpi Hci) as Hnt.
+    destruct (pre_facts s t _ _ I1 I2 ltac:(rewrite Hk; reflexivity) Hst eq_refl) as (Hsl & _).
+    rewrite Hsl. intros [HH|HH].
+    + destruct (Nat.eqb_spec x0 t) as [->|Hne].
+      * injection HH as HH. apply payload_inj in HH. subst i0. now rewrite Nat.eqb_refl.
+      * specialize (Hh (or_introl HH)). destruct (Nat.eqb_spec i0 i) as [->|]; [congruence|exact Hh].
+    + specialize (Hh (or_intror HH)). destruct (Nat.eqb_spec i0 i) as [->|]; [congruence|exact Hh].
+  - (* try_call t claims acceptor j *)
+    destruct (inw_acc s j I1 I2 Hw) as (Hkj & Hsj & _).
+    pose proof (try_not_taken s t _ _ I3 Hk Hst eq_refl) as Hnt.
+    assert (RGot t = payload_res s t) as Hpl by (unfold payload_res; now rewrite Hk).
+    rewrite Hsj, Hpl. intros [HH|HH].
+    + destruct (Nat.eqb_spec x0 j) as [->|Hne].
+      * injection HH as HH. apply payload_inj in HH. subst i0. now rewrite Nat.eqb_refl.
+      * specialize (Hh (or_introl HH)). destruct (Nat.eqb_spec i0 t) as [->|]; [congruence|exact Hh].
+    + destruct (Nat.eqb_spec x0 t) as [->|Hne].
+      * injection HH as HH. symmetry in HH. apply payload_not_value in HH. contradiction.
+      * specialize (Hh (or_intror HH)). destruct (Nat.eqb_spec i0 t) as [->|]; [congruence|exact Hh].
+  - (* try_accept t claims caller i *)
+    destruct (inw_call s i I1 I2 Hw) as (Hki & _ & Hpi & Hci & _).
+    pose proof (caller_not_taken s i I3 Hki Hpi Hci) as Hnt.
+    intros [HH|HH].
+    + specialize (Hh (or_introl HH)). destruct (Nat.eqb_spec i0 i) as [->|]; [congruence|exact Hh].
+    + destruct (Nat.eqb_spec x0 t) as [->|Hne].
+      * injection HH as HH. apply payload_inj in HH. subst i0. now rewrite Nat.eqb_refl.
+      * specialize (Hh (or_intror HH)). destruct (Nat.eqb_spec i0 i) as [->|]; [congruence|exact Hh].
+Qed.
+
+Lemma step_inv3_h2 t s s' e : Inv0 s -> Inv1 s -> Inv2 s -> Inv3 s -> step t s = Some (s', e) ->
+  forall x i, taken s' i = Some x -> holds s' x i.
+Proof.
+  intros I0 I1 I2 I3 H. pose proof (holds_persist _ _ _ _ I0 I1 I2 I3 H) as Hper. begin_step H I0.
+  all: intros x0 i0; pose proof (i3_h2 s I3 x0 i0) as Hh; specialize (Hper x0 i0).
+  all: try (intros HH; apply Hper; apply Hh; exact HH).
+  all: match goal with Hc : word_eqb (w ?s) ?v = true |- _ =>
+         destruct (word_eqb_spec (w s) v) as [Hw|]; [|discriminate Hc] end.
+  all: norm; unfold upd at 1;
+       match goal with |- (if Nat.eqb ?b ?a then _ else _) = _ -> _ => destruct (Nat.eqb_spec b a) as [->|Hne] end;
+       [|intros HH; apply Hper; apply Hh; exact HH].
+  all: intros HH; injection HH as <-; unfold holds; norm; change (payload_res _ ?a) with (payload_res s a);
+       unfold upd; rewrite ?Nat.eqb_refl.
+  - destruct (inw_acc s j I1 I2 Hw) as (_ & Hsj & _). rewrite Hsj. now left.
+  - destruct (inw_acc s j I1 I2 Hw) as (_ & Hsj & _). rewrite Hsj. now left.
+  - destruct (pre_facts s t _ _ I1 I2 ltac:(rewrite Hk; reflexivity) Hst eq_refl) as (Hsl & _).
+    rewrite Hsl. now left.
+  - destruct (inw_acc s j I1 I2 Hw) as (_ & Hsj & _). rewrite Hsj. left.
+    unfold payload_res. now rewrite Hk.
+  - now right.
+Qed.
+
+Lemma step_inv3_k t s s' e : Inv0 s -> Inv1 s -> Inv2 s -> Inv3 s -> step t s = Some (s', e) ->
+  forall i x, taken s' i = Some x -> kd s' x = TAccept \/ kd s' x = TTryAccept.
+Proof.
+  intros I0 I1 I2 I3 H. begin_step H I0.
+  all: intros i0 x0; pose proof (i3_k s I3 i0 x0) as Hh; norm; try exact Hh.
+  all: match goal with Hc : word_eqb (w ?s) ?v = true |- _ =>
+         destruct (word_eqb_spec (w s) v) as [Hw|]; [|discriminate Hc] end.
+  all: unfold upd; case_eqb; try exact Hh; intros HH; injection HH as <-.
+  all: try (left; exact (proj1 (inw_acc s _ I1 I2 Hw))).
+  all: rewrite Hk; auto.
+Qed.
+
+Ltac pose_pend2 Hlt :=
+  repeat match goal with
+  | |- context[pendf ?p ?n (upd ?f ?t ?L)] =>
+      pose proof (pendf_upd p n f t L Hlt);
+      let x := fresh "pn" in let E := fresh "Epn" in
+      remember (pendf p n (upd f t L)) as x eqn:E in *; clear E
+  | H : context[pendf ?p ?n (upd ?f ?t ?L)] |- _ =>
+      pose proof (pendf_upd p n f t L Hlt);
+      let x := fresh "pn" in let E := fresh "Epn" in
+      remember (pendf p n (upd f t L)) as x eqn:E in *; clear E
+  end.
+Ltac pp2 := match goal with Hlt : _ < nthr _ |- _ => pose_pend2 Hlt end.
+
+Lemma step_inv3_a t s s' e : Inv0 s -> Inv1 s -> Inv2 s -> Inv3 s -> step t s = Some (s', e) ->
+  forall i, is_caller_kind (kd s' i) = true -> taken s' i <> None ->
+    ptcc s' i false + comp s' i = 1 /\ slot s' i = None.
+Proof.
+  intros I0 I1 I2 I3 H. pose proof (step_inv1 _ _ _ _ I0 I1 H) as I1'. begin_step H I0.
+  all: intros i0 Hck; pose proof (i3_a s I3 i0) as Ha; pose proof (i1_w s I1) as Hw0;
+       pose proof (i1_u s I1 i0) as Hu; pose proof (i1_u _ I1' i0) as Hu'; clear I1';
+       pose proof (i2_slot0 s I2 i0) as Hs0;
+       pose proof (pendf_tc_split i0 (nthr s) (stk s)) as Hsp;
+       pose proof (pendf_upd (isTcc i0 true) (nthr s) (stk s) t [] Hlt) as HxT.
+  all: match goal with Hst : stk _ _ = _ :: ?rest |- _ => pose proof (cnt_tc_split i0 rest) as Hsr end.
+  all: try match goal with Hst : stk _ _ = MTc _ ?c :: _ |- _ => destruct c end.
+  all: unf3'; specialize (Ha Hck); rewrite Hck in *; rewrite (caller_party _ Hck) in *.
+  all: pp2; unfold upd in *; rw_st.
+  all: try (intro HT; destruct (Ha HT) as [Ha1 Ha2]; clear Ha; split; [|exact Ha2];
+            case_eqb; rw_st; simp_cnt; try lia; kill_ifs_all; try lia; fail).
+  all: intro HT; split_w; case_eqb; rw_st; simp_cnt; kinds; try discriminate; try congruence.
+  all: try (destruct (Ha HT) as [Ha1 Ha2]; clear Ha; split; [|try exact Ha2];
+            rew_bools; cbn [b2n] in *; try lia; kill_ifs_all; try lia; try exact Ha2).
+  all: cbn [andb] in *; case_eqb; simp_cnt.
+  all: try (split; [lia | apply Hs0; lia]).
+  all: try (exfalso; lia).
+Qed.
+
+Lemma step_inv3_b t s s' e : Inv0 s -> Inv1 s -> Inv2 s -> Inv3 s -> step t s = Some (s', e) ->
+  forall i, is_caller_kind (kd s' i) = true -> ptcc s' i false = 1 -> taken s' i <> None.
+Proof.
+  intros I0 I1 I2 I3 H. pose proof (step_inv1 _ _ _ _ I0 I1 H) as I1'. begin_step H I0.
+  all: intros i0 Hck; pose proof (i3_b s I3 i0) as Hb; pose proof (i1_w s I1) as Hw0;
+       pose proof (i1_u s I1 i0) as Hu; pose proof (i1_u _ I1' i0) as Hu'; clear I1';
+       pose proof (pendf_tc_split i0 (nthr s) (stk s)) as Hsp.
+  all: match goal with Hst : stk _ _ = _ :: ?rest |- _ => pose proof (cnt_tc_split i0 rest) as Hsr end.
+  all: try match goal with Hst : stk _ _ = MTc _ ?c :: _ |- _ => destruct c end.
+  all: unf3'; specialize (Hb Hck); rewrite Hck in *; rewrite (caller_party _ Hck) in *.
+  all: pp2; unfold upd in *; rw_st.
+  all: intro HT; split_w; case_eqb; rw_st; simp_cnt; kinds; try discriminate; try congruence.
+  all: try (apply Hb; lia).
+  all: rew_bools; cbn [b2n andb] in *; kill_ifs_all; try discriminate; try congruence; try (apply Hb; lia); try (exfalso; lia).
+Qed.
+
+Lemma step_inv3_c t s s' e : Inv0 s -> Inv1 s -> Inv2 s -> Inv3 s -> step t s = Some (s', e) ->
+  forall i, is_caller_kind (kd s' i) = true -> comp s' i = 1 -> slot s' i = None -> taken s' i <> None.
+Proof.
+  intros I0 I1 I2 I3 H. pose proof (step_inv1 _ _ _ _ I0 I1 H) as I1'. begin_step H I0.
+  all: intros i0 Hck; pose proof (i3_c s I3 i0) as Hcc; pose proof (i3_b s I3 i0) as Hb; pose proof (i1_w s I1) as Hw0;
+       pose proof (i1_u s I1 i0) as Hu; pose proof (i1_u _ I1' i0) as Hu'; clear I1';
+       pose proof (pendf_tc_split i0 (nthr s) (stk s)) as Hsp;
+       pose proof (pendf_upd (isTcc i0 false) (nthr s) (stk s) t [] Hlt) as HxF.
+  all: match goal with Hst : stk _ _ = _ :: ?rest |- _ => pose proof (cnt_tc_split i0 rest) as Hsr end.
+  all: try match goal with Hst : stk _ _ = MTc _ ?c :: _ |- _ => destruct c end.
+  all: unf3'; specialize (Hcc Hck); specialize (Hb Hck); rewrite Hck in *; rewrite (caller_party _ Hck) in *.
+  all: try exact Hcc.
+  all: pp2; unfold upd in *; rw_st.
+  all: intros HT HS; split_w; case_eqb; rw_st; simp_cnt; kinds; try discriminate; try congruence.
+  all: try (apply Hcc; [lia|assumption]).
+  all: rew_bools; cbn [b2n andb] in *; kill_ifs_all; try discriminate; try congruence;
+       try (apply Hcc; [lia|assumption]); try (apply Hb; lia); try (exfalso; lia).
+Qed.
+
+Lemma step_inv3_e t s s' e : Inv0 s -> Inv1 s -> Inv2 s -> Inv3 s -> step t s = Some (s', e) ->
+  forall t0, kd s' t0 = TTryCall ->
+    (taken s' t0 <> None -> tres s' t0 = Some RValue) /\ (tres s' t0 = Some RValue -> taken s' t0 <> None).
+Proof.
+  intros I0 I1 I2 I3 H. begin_step H I0.
+  all: intros t0 Hkt; pose proof (i3_e1 s I3 t0 Hkt) as He1; pose proof (i3_e2 s I3 t0 Hkt) as He2;
+       pose proof (i3_t s I3 t0) as Ht; pose proof (i1_w s I1) as Hw0.
+  all: norm; try (split; assumption).
+  all: unfold upd, word_ok in *; split_w; case_eqb; rw_st; simp_cnt; kinds; try discriminate; try congruence.
+  all: try (split; assumption).
+  all: split; intros HH; try discriminate; try congruence; try reflexivity.
+  all: exfalso; specialize (He1 HH); rewrite He1 in Ht; specialize (Ht ltac:(discriminate)); lia.
+Qed.
+
+Lemma step_inv3 t s s' e : Inv0 s -> Inv1 s -> Inv2 s -> Inv3 s -> step t s = Some (s', e) -> Inv3 s'.
+Proof.
+  intros I0 I1 I2 I3 H. constructor.
+  - eapply step_inv3_x; eauto.
+  - eapply step_inv3_l; eauto.
+  - eapply step_inv3_t; eauto.
+  - eapply step_inv3_d; eauto.
+  - eapply step_inv3_h1; eauto.
+  - eapply step_inv3_h2; eauto.
+  - eapply step_inv3_a; eauto.
+  - eapply step_inv3_b; eauto.
+  - eapply step_inv3_c; eauto.
+  - intros t0 Hk. exact (proj1 (step_inv3_e _ _ _ _ I0 I1 I2 I3 H t0 Hk)).
+  - intros t0 Hk. exact (proj2 (step_inv3_e _ _ _ _ I0 I1 I2 I3 H t0 Hk)).
+  - eapply step_inv3_k; eauto.
+Qed.
+
+(* ------------------------------------------------------------------------------------------ *)
+(* Tier 2c: what a receiver is completed with *)
+
+Definition expected s k : res :=
+  if is_caller_kind (kd s k) then match slot s k with Some RDone => RDone | _ => RValue end
+  else match slot s k with Some r => r | None => RBad end.
+
+Definition deliv_ok s k r := r = expected s k \/ (hs s = true /\ stopreq s k = true /\ r = RDone).
+
+Record Inv4 (s : st) : Prop := {
+  i4_d : forall k r, In r (delivered s k) -> deliv_ok s k r
+}.
+
+Lemma delivered_comp s k r : Inv2 s -> In r (delivered s k) -> ccomp s k = true.
+Proof.
+  intros I2 Hin. pose proof (i2_hop s I2 k) as Hh. unfold comp in Hh.
+  destruct (delivered s k); [destruct Hin|]. simpl in Hh. destruct (ccomp s k); [reflexivity|simpl in Hh; lia].
+Qed.
+
+Lemma step_inv4 t s s' e : Inv0 s -> Inv1 s -> Inv2 s -> Inv3 s -> Inv4 s -> step t s = Some (s', e) -> Inv4 s'.
+Proof.
+  intros I0 I1 I2 I3 I4 H. constructor. begin_step H I0.
+  all: intros k0 r0; pose proof (i4_d s I4 k0 r0) as Hd; pose proof (delivered_comp s k0 r0 I2) as Hdc;
+       pose proof (i1_u s I1 k0) as Hu.
+  all: unfold deliv_ok, expected in *; norm; try exact Hd.
+  all: try (match goal with Hc : word_eqb (w ?s) ?v = true |- _ =>
+         destruct (word_eqb_spec (w s) v) as [Hw|]; [|discriminate Hc] end).
+  (* claims writing slot j of the party found in the word, or the own slot of an acceptor *)
+  all: try (intros Hin; specialize (Hd Hin); specialize (Hdc Hin); unfold upd; case_eqb; [exfalso|exact Hd];
+            first [ destruct (inw_acc s _ I1 I2 Hw) as (_ & _ & _ & Hcf & _); congruence
+                  | match goal with Hst : stk _ _ = _ :: _, Hk : kd _ _ = _ |- _ =>
+                      destruct (pre_facts s _ _ _ I1 I2 ltac:(rewrite Hk; reflexivity) Hst eq_refl) as (_ & _ & Hcf & _) end;
+                    congruence ]).
+  - (* MTc k c: k was not completed *)
+    intros Hin. specialize (Hd Hin). specialize (Hdc Hin).
+    destruct c; [|exact Hd]. unfold upd. destruct (Nat.eqb_spec k0 k) as [->|]; [congruence|exact Hd].
+  - (* MHop *)
+    unfold upd. destruct (Nat.eqb_spec k0 k) as [->|]; [|exact Hd].
+    intros [<-|Hin]; [|exact (Hd Hin)].
+    unfold hop_result. destruct (hs s); simpl; [|now left]. destruct (stopreq s k); simpl; [right; auto|now left].
+  - (* MStopCas k succeeds: k was parked, not completed *)
+    intros Hin. specialize (Hd Hin). specialize (Hdc Hin).
+    destruct (is_caller_kind (kd s k)) eqn:Eck; [exact Hd|].
+    unfold upd. destruct (Nat.eqb_spec k0 k) as [->|]; [exfalso|exact Hd].
+    unfold word_of in Hw. rewrite Eck in Hw.
+    destruct (inw_acc s _ I1 I2 Hw) as (_ & _ & _ & Hcf & _). congruence.
+  - intros Hin. destruct (Hd Hin) as [Hx|(Hx & Hy & Hz)]; [now left|right].
+    repeat split; auto. unfold upd. destruct (Nat.eqb k0 k); auto.
+  - intros Hin. destruct (Hd Hin) as [Hx|(Hx & Hy & Hz)]; [now left|right].
+    repeat split; auto. unfold upd. destruct (Nat.eqb k0 k); auto.
+  - intros Hin. destruct (Hd Hin) as [Hx|(Hx & Hy & Hz)]; [now left|right].
+    repeat split; auto. unfold upd. destruct (Nat.eqb k0 k); auto.
+Qed.
+
+(* ------------------------------------------------------------------------------------------ *)
+(* Tier 3: cancellation and the start()/completion handshake *)
+
+Definition psync s k := pend (isSync k) s.
+Definition pcbor s k := pend (isCbOr k) s.
+Definition pstop s k := pend (isStopCas k) s.
+Definition init_stack : list mop := [MReg; MLoad; MSyncLoad].
+
+Record Inv5 (s : st) : Prop := {
+  i5_p1 : forall k, cnt isSL (stk s k) + cnt isSS (stk s k) >= 1 -> cstart s k = false;
+  i5_y1 : forall k, ccomp s k = true -> cstart s k = false -> sync s k = true \/ psync s k >= 1;
+  i5_y2 : forall k, cnt isSP (stk s k) >= 1 -> sync s k = true \/ psync s k >= 1;
+  i5_q0 : forall k, party s k = true -> cb s k = CbNone -> cnt isReg (stk s k) = 0 -> stopreq s k = true;
+  i5_q1 : forall k, cb s k = CbGone -> stopreq s k = true \/ ccomp s k = true;
+  i5_q2 : forall k, party s k = true -> cnt isReg (stk s k) = 0 -> stopreq s k = true ->
+            cstop s k = true \/ pcbor s k >= 1 \/ ccomp s k = true;
+  i5_r0 : forall k, cnt isReg (stk s k) = 0 \/ stk s k = init_stack;
+  i5_r1 : forall k, party s k = true -> cnt isLoop (stk s k) >= 1 -> cnt isSL (stk s k) >= 1;
+  i5_s2 : forall k, inw s k = 1 -> cstop s k = true -> cstart s k = true -> pstop s k >= 1;
+  i5_ip : forall k, inw s k = 1 -> cstart s k = false -> cnt isSL (stk s k) + cnt isSS (stk s k) >= 1
+}.
+
+(* continuations headed by a control micro-operation have nothing behind it *)
+Ltac ctl_rest I0 :=
+  try match goal with
+  | Hst : stk ?s ?t = ?m :: ?rest |- _ =>
+      lazymatch m with
+      | MSyncLoad => idtac | MSetStarted => idtac | MSpinSync => idtac
+      end;
+      let Hr := fresh "Hr" in
+      assert (rest = []) as Hr
+        by (eapply wf_ctl_head; [rewrite <- Hst; apply (i0_wf s I0 t) | reflexivity]);
+      subst rest
+  end.
+
+Ltac unf5 := unfold psync, pcbor, pstop, init_stack, holds, acc, ptcc, phop, pchain, pre, inw, ptc, comp, party,
+                    pend, word_of, word_ok in *; norm.
+
+Lemma step_inv5_p1 t s s' e : Inv0 s -> Inv5 s -> step t s = Some (s', e) ->
+  forall k, cnt isSL (stk s' k) + cnt isSS (stk s' k) >= 1 -> cstart s' k = false.
+Proof.
+  intros I0 I5 H. begin_step H I0; ctl_rest I0.
+  all: intros k0; pose proof (i5_p1 s I5 k0) as Hh; unf5; unfold upd; case_eqb; rw_st; simp_cnt;
+       try exact Hh; try lia.
+  all: kill_ifs_all; try lia; try (intros; apply Hh; lia).
+Qed.
+
+Ltac fin_or Hh :=
+  try (intros; lia); try (intros; discriminate); try (intros; congruence);
+  try (intros; destruct Hh; auto; (left; assumption) || (right; lia); fail).
+
+Lemma step_inv5_y1 t s s' e : Inv0 s -> Inv5 s -> step t s = Some (s', e) ->
+  forall k, ccomp s' k = true -> cstart s' k = false -> sync s' k = true \/ psync s' k >= 1.
+Proof.
+  intros I0 I5 H. begin_step H I0; ctl_rest I0.
+  all: intros k0; pose proof (i5_y1 s I5 k0) as Hh; unf5; try exact Hh.
+  all: pp2; unfold upd in *; case_eqb; rw_st; simp_cnt.
+  all: intros Hc1 Hc2; try (specialize (Hh Hc1 Hc2)); try (destruct Hh as [Hh|Hh]; [left; exact Hh|right; lia]).
+  all: rew_bools; try discriminate; kill_ifs_all; try discriminate; try congruence.
+  all: try (right; lia); try (left; reflexivity).
+  all: try (specialize (Hh Hc1 Hc2)); try (destruct Hh as [Hh|Hh]; [left; exact Hh|right; lia]).
+Qed.
+
+Lemma step_inv5_y2 t s s' e : Inv0 s -> Inv5 s -> step t s = Some (s', e) ->
+  forall k, cnt isSP (stk s' k) >= 1 -> sync s' k = true \/ psync s' k >= 1.
+Proof.
+  intros I0 I5 H. begin_step H I0; ctl_rest I0.
+  all: intros k0; pose proof (i5_y2 s I5 k0) as Hh; pose proof (i5_y1 s I5 k0) as Hy;
+       pose proof (i5_p1 s I5 k0) as Hp1; unf5.
+  all: pp2; unfold upd in *; case_eqb; rw_st; simp_cnt.
+  all: intros Hc1; try (specialize (Hh Hc1)); try (destruct Hh as [Hh|Hh]; [left; exact Hh|right; lia]).
+  all: try lia.
+  all: rew_bools; try discriminate; kill_ifs_all; try discriminate; try congruence; try lia.
+  all: try (right; lia); try (left; reflexivity).
+  all: try (specialize (Hh ltac:(lia))); try (destruct Hh as [Hh|Hh]; [left; exact Hh|right; lia]).
+  destruct (Hy eq_refl (Hp1 ltac:(lia))) as [Hy'|Hy']; [left; exact Hy'|right; lia].
+Qed.
+
+Lemma step_inv5_q0 t s s' e : Inv0 s -> Inv5 s -> step t s = Some (s', e) ->
+  forall k, party s' k = true -> cb s' k = CbNone -> cnt isReg (stk s' k) = 0 -> stopreq s' k = true.
+Proof.
+  intros I0 I5 H. begin_step H I0; ctl_rest I0.
+  all: intros k0; pose proof (i5_q0 s I5 k0) as Hh; unf5; try exact Hh.
+  all: unfold upd in *; case_eqb; rw_st; simp_cnt; try exact Hh.
+  all: intros Hc1 Hc2 Hc3; try discriminate; try reflexivity; try assumption; try lia.
+  all: try (apply Hh; auto; lia).
+  all: kill_ifs_all; try discriminate; try lia; try (apply Hh; auto; lia).
+Qed.
+
+Lemma step_inv5_q1 t s s' e : Inv0 s -> Inv2 s -> Inv5 s -> step t s = Some (s', e) ->
+  forall k, cb s' k = CbGone -> stopreq s' k = true \/ ccomp s' k = true.
+Proof.
+  intros I0 I2 I5 H. begin_step H I0; ctl_rest I0.
+  all: intros k0; pose proof (i5_q1 s I5 k0) as Hh; pose proof (i2_chain s I2 k0) as Hch;
+       pose proof (pendf_upd (isChain k0) (nthr s) (stk s) t [] Hlt) as Hpc; unf5; try exact Hh.
+  all: unfold upd in *; case_eqb; rw_st; simp_cnt; try exact Hh.
+  all: intros Hc1; try discriminate; try (left; reflexivity); try (right; reflexivity).
+  all: try (destruct (Hh Hc1); auto; fail).
+  all: rewrite ?Nat.eqb_refl in *.
+  all: try (destruct (ccomp s k) eqn:Ecc; [right; reflexivity|cbn [b2n] in Hch; specialize (Hch eq_refl); exfalso; lia]).
+Qed.
+
+Lemma step_inv5_q2 t s s' e : Inv0 s -> Inv5 s -> step t s = Some (s', e) ->
+  forall k, party s' k = true -> cnt isReg (stk s' k) = 0 -> stopreq s' k = true ->
+            cstop s' k = true \/ pcbor s' k >= 1 \/ ccomp s' k = true.
+Proof.
+  intros I0 I5 H. begin_step H I0; ctl_rest I0.
+  all: intros k0; pose proof (i5_q2 s I5 k0) as Hh; pose proof (i5_q0 s I5 k0) as Hq0;
+       pose proof (i5_q1 s I5 k0) as Hq1; unf5.
+  all: pp2; unfold upd in *; case_eqb; rw_st; simp_cnt.
+  all: intros Hc1 Hc2 Hc3.
+  all: rewrite ?Nat.eqb_refl in *; case_eqb.
+  all: try (left; reflexivity); try (right; right; reflexivity); try (right; left; lia).
+  all: try (destruct (Hh Hc1 ltac:(lia) Hc3) as [Hx|[Hx|Hx]]; [left; exact Hx|right; left; lia|right; right; exact Hx]).
+  all: try congruence.
+  all: try (specialize (Hq0 Hc1 ltac:(assumption) ltac:(lia)); congruence).
+  all: try (destruct (Hq1 ltac:(assumption)); [congruence| right; right; assumption]).
+Qed.
+
+Lemma step_inv5_r0 t s s' e : Inv0 s -> Inv5 s -> step t s = Some (s', e) ->
+  forall k, cnt isReg (stk s' k) = 0 \/ stk s' k = init_stack.
+Proof.
+  intros I0 I5 H. begin_step H I0; ctl_rest I0.
+  all: intros k0; pose proof (i5_r0 s I5 k0) as Hh; unf5; try exact Hh.
+  all: unfold upd in *; case_eqb; rw_st; simp_cnt; try exact Hh.
+  all: left; destruct Hh as [Hh|Hh]; try discriminate Hh; try (injection Hh as <-); simp_cnt; try lia.
+  all: kill_ifs_all; try lia.
+  all: injection Hh as ->; reflexivity.
+Qed.
+
+Lemma step_inv5_r1 t s s' e : Inv0 s -> Inv3 s -> Inv5 s -> step t s = Some (s', e) ->
+  forall k, party s' k = true -> cnt isLoop (stk s' k) >= 1 -> cnt isSL (stk s' k) >= 1.
+Proof.
+  intros I0 I3 I5 H. begin_step H I0; ctl_rest I0.
+  all: intros k0; pose proof (i5_r1 s I5 k0) as Hh; pose proof (i3_l s I3 k0) as Hl; unf5; try exact Hh.
+  all: unfold upd in *; case_eqb; rw_st; simp_cnt; try exact Hh; try lia.
+  all: intros Hc1 Hc2; try (specialize (Hh Hc1 ltac:(lia)); lia).
+  all: kill_ifs_all; try lia; try (specialize (Hh Hc1 ltac:(lia)); lia).
+Qed.
+
+Lemma step_inv5_s2 t s s' e : Inv0 s -> Inv1 s -> Inv2 s -> Inv5 s -> step t s = Some (s', e) ->
+  forall k, inw s' k = 1 -> cstop s' k = true -> cstart s' k = true -> pstop s' k >= 1.
+Proof.
+  intros I0 I1 I2 I5 H. begin_step H I0; ctl_rest I0.
+  all: intros k0; pose proof (i5_s2 s I5 k0) as Hh; pose proof (i1_u s I1 k0) as Hu;
+       pose proof (i5_p1 s I5 k0) as Hp1; pose proof (i5_r1 s I5 k0) as Hr1; pose proof (i1_w s I1) as Hw0.
+  all: unf5; pp2; unfold upd in *; rw_st.
+  all: intros Hc1 Hc2 Hc3; split_kind s k0.
+  all: grind.
+  all: try (rewrite (Hp1 ltac:(lia)) in Hc; discriminate Hc).
+  all: match goal with Hst : stk _ _ = MCbOr ?k :: _ |- _ =>
+         destruct (cstop s k) eqn:E1, (ccomp s k) eqn:E2 end; cbn [negb andb b2n] in *; try discriminate; try lia.
+  all: specialize (Hh eq_refl eq_refl eq_refl); lia.
+Qed.
+
+Lemma step_inv5_ip t s s' e : Inv0 s -> Inv1 s -> Inv2 s -> Inv5 s -> step t s = Some (s', e) ->
+  forall k, inw s' k = 1 -> cstart s' k = false -> cnt isSL (stk s' k) + cnt isSS (stk s' k) >= 1.
+Proof.
+  intros I0 I1 I2 I5 H. begin_step H I0; ctl_rest I0.
+  all: intros k0; pose proof (i5_ip s I5 k0) as Hh; pose proof (i1_u s I1 k0) as Hu;
+       pose proof (i2_sync s I2 k0) as Hsy; pose proof (i5_r1 s I5 k0) as Hr1; pose proof (i1_w s I1) as Hw0.
+  all: unf5; unfold upd in *; rw_st.
+  all: intros Hc1 Hc2; split_kind s k0.
+  all: grind.
+  all: rewrite (Hsy eq_refl) in Hu; cbn [b2n] in Hu; lia.
+Qed.
+
+Lemma step_inv5 t s s' e : Inv0 s -> Inv1 s -> Inv2 s -> Inv3 s -> Inv5 s -> step t s = Some (s', e) -> Inv5 s'.
+Proof.
+  intros I0 I1 I2 I3 I5 H. constructor.
+  - eapply step_inv5_p1; eauto.
+  - eapply step_inv5_y1; eauto.
+  - eapply step_inv5_y2; eauto.
+  - eapply step_inv5_q0; eauto.
+  - eapply step_inv5_q1; eauto.
+  - eapply step_inv5_q2; eauto.
+  - eapply step_inv5_r0; eauto.
+  - eapply step_inv5_r1; eauto.
+  - eapply step_inv5_s2; eauto.
+  - eapply step_inv5_ip; eauto.
+Qed.
+
+(* ------------------------------------------------------------------------------------------ *)
+(* the invariants hold initially and along every schedule                                       *)
+
+Definition Inv (s : st) : Prop := Inv0 s /\ Inv1 s /\ Inv2 s /\ Inv3 s /\ Inv4 s /\ Inv5 s.
+
+Lemma inv_step t s s' e : Inv s -> step t s = Some (s', e) -> Inv s'.
+Proof.
+  intros (I0 & I1 & I2 & I3 & I4 & I5) H.
+  split; [eapply step_inv0; eauto|].
+  split; [eapply step_inv1; eauto|].
+  split; [eapply step_inv2; eauto|].
+  split; [eapply step_inv3; eauto|].
+  split; [eapply step_inv4; eauto|].
+  eapply step_inv5; eauto.
+Qed.
+
+Lemma pendf_zero p n f : (forall t, cnt p (f t) = 0) -> pendf p n f = 0.
+Proof.
+  intros H. unfold pendf. induction n; simpl; [reflexivity|]. rewrite IHn, H. reflexivity.
+Qed.
+
+Definition quiet (p : mop -> bool) : Prop := forall k, cnt p (start_stack k) = 0.
+Lemma quiet_tc k : quiet (isTc k). Proof. intros []; reflexivity. Qed.
+Lemma quiet_tcc k c : quiet (isTcc k c). Proof. intros []; reflexivity. Qed.
+Lemma quiet_hop k : quiet (isHop k). Proof. intros []; reflexivity. Qed.
+Lemma quiet_chain k : quiet (isChain k). Proof. intros []; reflexivity. Qed.
+Lemma quiet_sync k : quiet (isSync k). Proof. intros []; reflexivity. Qed.
+Lemma quiet_cbor k : quiet (isCbOr k). Proof. intros []; reflexivity. Qed.
+Lemma quiet_stopcas k : quiet (isStopCas k). Proof. intros []; reflexivity. Qed.
+
+Lemma pend_init p hsb prog : quiet p -> pend p (init hsb prog) = 0.
+Proof. intros Hq. unfold pend. apply pendf_zero. intros t. simpl. apply Hq. Qed.
+
+Lemma inv_init hsb prog : Inv (init hsb prog).
+Proof.
+  split; [|split; [|split; [|split; [|split]]]].
+  - (* Inv0 *) constructor.
+    + intros t Ht. simpl. rewrite nth_overflow by exact Ht. reflexivity.
+    + intros t. simpl. destruct (nth t prog TNone); reflexivity.
+    + intros t v. simpl. destruct (nth t prog TNone); simpl; intuition discriminate.
+  - (* Inv1 *) constructor.
+    + exact Logic.I.
+    + intros k. unfold pre, inw, ptc, comp, party, word_of. rewrite pend_init by apply quiet_tc.
+      simpl. destruct (nth k prog TNone); reflexivity.
+  - (* Inv2 *) constructor.
+    + intros k. unfold phop, comp. rewrite pend_init by apply quiet_hop. reflexivity.
+    + intros k _. unfold pchain. apply pend_init, quiet_chain.
+    + reflexivity.
+    + intros k _. unfold ptc, comp. rewrite pend_init by apply quiet_tc. simpl. discriminate.
+    + simpl. discriminate.
+  - (* Inv3 *) constructor.
+    + intros t k. simpl. destruct (nth t prog TNone); simpl; intuition discriminate.
+    + intros t. simpl. destruct (nth t prog TNone); cbv; lia.
+    + simpl. congruence.
+    + simpl. discriminate.
+    + intros x i [H|H]; simpl in H; discriminate.
+    + simpl. discriminate.
+    + simpl. congruence.
+    + intros i _. unfold ptcc. rewrite pend_init by apply quiet_tcc. discriminate.
+    + intros i _. unfold comp. simpl. discriminate.
+    + simpl. congruence.
+    + simpl. discriminate.
+    + simpl. discriminate.
+  - (* Inv4 *) constructor. intros k r [].
+  - (* Inv5 *) constructor.
+    + reflexivity.
+    + simpl. discriminate.
+    + intros k. simpl. destruct (nth k prog TNone); cbv; lia.
+    + intros k. unfold party. simpl. destruct (nth k prog TNone); simpl; try discriminate; intros _ _ H; cbv in H; lia.
+    + simpl. discriminate.
+    + simpl. discriminate.
+    + intros k. simpl. destruct (nth k prog TNone); simpl; auto.
+    + intros k. unfold party. simpl. destruct (nth k prog TNone); simpl; try discriminate; intros; cbv; lia.
+    + intros k. unfold inw, word_of. simpl. destruct (is_caller_kind (nth k prog TNone)); simpl; discriminate.
+    + intros k. unfold inw, word_of. simpl. destruct (is_caller_kind (nth k prog TNone)); simpl; discriminate.
+Qed.
+
+Theorem inv_reachable hsb prog sched : Inv (fst (run step sched (init hsb prog, []))).
+Proof.
+  apply (run_invariant_state st nat ev step Inv).
+  - intros s t s' e Hi Hs. eapply inv_step; eauto.
+  - apply inv_init.
+Qed.
+
+(* ------------------------------------------------------------------------------------------ *)
+(* consequences of the invariants (state level)                                                 *)
+
+Lemma inv_each_once s k : Inv s -> length (delivered s k) <= 1.
+Proof.
+  intros (_ & _ & I2 & _). pose proof (i2_hop s I2 k) as H. unfold comp in H.
+  destruct (ccomp s k); simpl in H; lia.
+Qed.
+
+(* consumer x received the payload of sender p: an accept completed with it, or try_accept returned it *)
+Definition received s x p := In (payload_res s p) (delivered s x) \/ tres s x = Some (payload_res s p).
+
+Lemma received_holds s x p : Inv s -> received s x p -> holds s x p.
+Proof.
+  intros (_ & _ & _ & I3 & I4 & _) [Hin|Ht]; [left|right; exact Ht].
+  destruct (i4_d s I4 x _ Hin) as [He|(_ & _ & He)]; [|apply payload_not_done in He; contradiction].
+  unfold expected in He. destruct (is_caller_kind (kd s x)) eqn:Ek.
+  - destruct (slot s x) as [[]|]; exfalso;
+      first [apply payload_not_done in He; contradiction | apply payload_not_value in He; contradiction].
+  - destruct (slot s x) as [r|]; [congruence|]. unfold payload_res in He. destruct (kd s p); discriminate.
+Qed.
+
+Lemma inv_payload_unique s p x x' : Inv s -> received s x p -> received s x' p -> x = x'.
+Proof.
+  intros I H1 H2. pose proof (received_holds _ _ _ I H1) as A. pose proof (received_holds _ _ _ I H2) as B.
+  destruct I as (_ & _ & _ & I3 & _).
+  pose proof (i3_h1 s I3 _ _ A). pose proof (i3_h1 s I3 _ _ B). congruence.
+Qed.
+
+Lemma inv_one_payload s x p p' : Inv s ->
+  In (payload_res s p) (delivered s x) -> In (payload_res s p') (delivered s x) -> p = p'.
+Proof.
+  intros I H1 H2. pose proof (inv_each_once s x I) as Hl.
+  destruct (delivered s x) as [|a [|b l]]; simpl in *; try lia; try contradiction.
+  destruct H1 as [H1|[]], H2 as [H2|[]]. apply (payload_inj s). congruence.
+Qed.
+
+Definition accepted s i := exists x, holds s x i.
+
+Lemma inv_value_accepted s i : Inv s -> is_caller_kind (kd s i) = true ->
+  In RValue (delivered s i) -> accepted s i.
+Proof.
+  intros (_ & _ & I2 & I3 & I4 & _) Hk Hin.
+  pose proof (delivered_comp s i _ I2 Hin) as Hc.
+  assert (slot s i = None) as Hs.
+  { destruct (i4_d s I4 i _ Hin) as [He|(_ & _ & He)]; [|discriminate].
+    unfold expected in He. rewrite Hk in He. destruct (slot s i) as [r|] eqn:Es; [|reflexivity].
+    destruct (i3_d s I3 i r Hk Es) as [-> _]. discriminate. }
+  assert (taken s i <> None) as Ht by (apply (i3_c s I3 i Hk); [unfold comp; now rewrite Hc|exact Hs]).
+  destruct (taken s i) as [x|] eqn:Et; [|congruence]. exists x. apply (i3_h2 s I3). exact Et.
+Qed.
+
+Lemma inv_done_untouched s i : Inv s -> hs s = false -> is_caller_kind (kd s i) = true ->
+  In RDone (delivered s i) -> ~ accepted s i.
+Proof.
+  intros (_ & _ & I2 & I3 & I4 & _) Hhs Hk Hin [x Hx].
+  destruct (i4_d s I4 i _ Hin) as [He|(Hh & _)]; [|congruence].
+  unfold expected in He. rewrite Hk in He.
+  pose proof (i3_h1 s I3 _ _ Hx) as Ht.
+  destruct (i3_a s I3 i Hk) as [_ Hs]; [congruence|]. rewrite Hs in He. discriminate.
+Qed.
+
+Lemma inv_acceptor_delivers_payload s x i r : Inv s -> hs s = false ->
+  slot s x = Some (payload_res s i) -> In r (delivered s x) -> r = payload_res s i.
+Proof.
+  intros (_ & _ & _ & I3 & I4 & _) Hhs Hs Hin.
+  destruct (i4_d s I4 x _ Hin) as [He|(Hh & _)]; [|congruence].
+  unfold expected in He. rewrite Hs in He. destruct (is_caller_kind (kd s x)) eqn:Ek; [|exact He].
+  destruct (i3_d s I3 x _ Ek Hs) as [Hd _]. apply payload_not_done in Hd. contradiction.
+Qed.
+
+(* an acceptor completed with done took no payload *)
+Lemma inv_accept_done_took_nothing s j p : Inv s -> hs s = false -> kd s j = TAccept ->
+  In RDone (delivered s j) -> slot s j <> Some (payload_res s p).
+Proof.
+  intros (_ & I1 & I2 & I3 & I4 & _) Hhs Hk Hin Hs.
+  destruct (i4_d s I4 j _ Hin) as [He|(Hh & _)]; [|congruence].
+  unfold expected in He. rewrite Hk, Hs in He. simpl in He. symmetry in He.
+  apply payload_not_done in He. contradiction.
+Qed.
+
+(* whoever is in the word is a live, uncompleted, unserved waiter *)
+Lemma inv_word_live s k : Inv s -> w s = word_of s k -> w s <> WIdle ->
+  party s k = true /\ ccomp s k = false /\ delivered s k = [] /\ slot s k = None /\ stk s k <> init_stack.
+Proof.
+  intros (I0 & I1 & I2 & I3 & I4 & I5) Hw Hni.
+  assert (ccomp s k = false /\ slot s k = None /\ party s k = true /\ cnt isLoop (stk s k) = 0) as (Hc & Hs & Hp & Hl).
+  { unfold word_of in Hw. destruct (is_caller_kind (kd s k)) eqn:Ek.
+    - destruct (inw_call s k I1 I2 Hw) as (Hk & Hs & _ & Hc & Hl). unfold party. rewrite (caller_party _ Hk). auto.
+    - destruct (inw_acc s k I1 I2 Hw) as (Hk & Hs & _ & Hc & Hl). unfold party. rewrite Hk. auto. }
+  repeat split; auto.
+  - pose proof (i2_hop s I2 k) as Hh. unfold comp in Hh. rewrite Hc in Hh. simpl in Hh.
+    destruct (delivered s k); [reflexivity|simpl in Hh; lia].
+  - intros E. rewrite E in Hl. cbv in Hl. lia.
+Qed.
+
+Lemma inv_try_call s t : Inv s -> kd s t = TTryCall ->
+  (tres s t = Some RValue -> exists j, holds s j t /\ (kd s j = TAccept \/ kd s j = TTryAccept)) /\
+  (tres s t = Some RDone -> forall x, ~ holds s x t).
+Proof.
+  intros (_ & _ & _ & I3 & _) Hk. split.
+  - intros Hr. pose proof (i3_e2 s I3 t Hk Hr) as Ht. destruct (taken s t) as [j|] eqn:Et; [|congruence].
+    exists j. split; [apply (i3_h2 s I3); exact Et|apply (i3_k s I3 t j Et)].
+  - intros Hr x Hx. pose proof (i3_h1 s I3 _ _ Hx) as Ht.
+    pose proof (i3_e1 s I3 t Hk ltac:(congruence)). congruence.
+Qed.
+
+(* a caller whose payload a try_accept (or an accept) holds was claimed while waiting; it is never cancelled *)
+Lemma inv_taken_caller s i x : Inv s -> is_caller_kind (kd s i) = true -> holds s x i ->
+  slot s i = None /\ (ccomp s i = true \/ ptc s i >= 1) /\ (hs s = false -> ~ In RDone (delivered s i)).
+Proof.
+  intros I Hk Hx. pose proof I as (_ & I1 & I2 & I3 & I4 & _).
+  pose proof (i3_h1 s I3 _ _ Hx) as Ht.
+  destruct (i3_a s I3 i Hk ltac:(congruence)) as [Ha Hs].
+  split; [exact Hs|split].
+  - pose proof (ptcc_le s i false). unfold comp in Ha. destruct (ccomp s i); [now left|right]. simpl in Ha. lia.
+  - intros Hhs Hin. apply (inv_done_untouched s i I Hhs Hk Hin). exists x. exact Hx.
+Qed.
+
+(* ------------------------------------------------------------------------------------------ *)
+(* progress: a state in which some thread still has work is never stuck                         *)
+
+Definition mop_is_spin (m : mop) : bool := match m with MSpinSync => true | _ => false end.
+
+Lemma step_enabled s t m rest : aborted s = false -> stk s t = m :: rest ->
+  (m = MSpinSync -> sync s t = true) -> step t s <> None.
+Proof.
+  intros Hab Hst Hsp. unfold step. rewrite Hab, Hst.
+  destruct m; try discriminate.
+  - destruct (stopreq s t); discriminate.
+  - cbv zeta. destruct (negb (cstop s k) && cstart s k && negb (ccomp s k)); discriminate.
+  - destruct (word_eqb (w s) v); discriminate.
+  - cbv zeta. destruct (ccomp s k); discriminate.
+  - destruct (sync s t); discriminate.
+  - cbv zeta. destruct (cstop s t && negb (cstart s t) && negb (ccomp s t)); [discriminate|].
+    destruct (ccomp s t); discriminate.
+  - rewrite (Hsp eq_refl). discriminate.
+  - cbv zeta. destruct (word_eqb (w s) (word_of s k)); discriminate.
+  - cbv zeta. destruct (stopreq s k); [discriminate|]. destruct (cb s k); discriminate.
+Qed.
+
+Lemma inv_progress s : Inv s -> aborted s = false -> (exists t, stk s t <> []) -> exists t, step t s <> None.
+Proof.
+  intros (I0 & I1 & I2 & I3 & I4 & I5) Hab [t Ht].
+  destruct (stk s t) as [|m rest] eqn:Hst; [congruence|].
+  destruct (mop_is_spin m) eqn:Em.
+  2: { exists t. eapply step_enabled; eauto. intros ->. discriminate. }
+  destruct m; try discriminate. clear Em.
+  destruct (sync s t) eqn:Esy.
+  { exists t. eapply step_enabled; eauto. }
+  pose proof (i5_y2 s I5 t) as Hy. rewrite Hst in Hy. rewrite cnt_cons in Hy. simpl in Hy.
+  destruct (Hy ltac:(lia)) as [Hy'|Hy']; [congruence|].
+  unfold psync, pend in Hy'. destruct (pendf_pos _ _ _ Hy') as (t' & m' & Hlt & Hin & Hm').
+  destruct (stk s t') as [|m0 rest'] eqn:Hst'; [destruct Hin|].
+  exists t'. eapply step_enabled; eauto. intros ->.
+  pose proof (i0_wf s I0 t') as Hw. rewrite Hst' in Hw.
+  assert (rest' = []) by (eapply wf_ctl_head; [exact Hw|reflexivity]). subst rest'.
+  destruct Hin as [<-|[]]. discriminate Hm'.
+Qed.
+
+(* ------------------------------------------------------------------------------------------ *)
+(* terminal states: every party completed exactly once, or is the (single) waiter in the word,
+   and then nobody asked it to stop                                                             *)
+
+Lemma inv_terminal s : Inv s -> (forall t, stk s t = []) ->
+  forall k, party s k = true ->
+    (length (delivered s k) = 1 /\ w s <> word_of s k) \/
+    (w s = word_of s k /\ delivered s k = [] /\ stopreq s k = false).
+Proof.
+  intros (I0 & I1 & I2 & I3 & I4 & I5) Hall k Hp.
+  assert (Hz : forall p, pend p s = 0) by (intros p; apply pendf_zero; intros t; rewrite Hall; reflexivity).
+  pose proof (i1_u s I1 k) as Hu. pose proof (i2_hop s I2 k) as Hh.
+  unfold pre, ptc, phop, inw, comp in *. rewrite Hp, !Hz, Hall in *. rewrite cnt_nil in Hu. simpl in Hu.
+  destruct (word_eqb_spec (w s) (word_of s k)) as [Hw|Hw]; destruct (ccomp s k) eqn:Ec; simpl in *; try lia.
+  - right. split; [exact Hw|]. split; [destruct (delivered s k); [reflexivity|simpl in Hh; lia]|].
+    assert (Hin : inw s k = 1) by (unfold inw; destruct (word_eqb_spec (w s) (word_of s k)); [reflexivity|contradiction]).
+    destruct (cstart s k) eqn:Est.
+    2: { pose proof (i5_ip s I5 k Hin Est) as H. rewrite Hall, !cnt_nil in H. lia. }
+    destruct (cstop s k) eqn:Esp.
+    { pose proof (i5_s2 s I5 k Hin Esp Est) as H. unfold pstop in H. rewrite Hz in H. lia. }
+    destruct (stopreq s k) eqn:Esr; [exfalso|reflexivity].
+    destruct (i5_q2 s I5 k Hp ltac:(rewrite Hall; reflexivity) Esr) as [H|[H|H]]; try congruence.
+    unfold pcbor in H. rewrite Hz in H. lia.
+  - left. split; [lia|exact Hw].
+Qed.
+
+Lemma all_done_spec s : Inv s -> all_done s = true -> forall t, stk s t = [].
+Proof.
+  intros (I0 & _) Had t. destruct (Nat.lt_ge_cases t (nthr s)) as [Hlt|Hge]; [|apply (i0_out s I0 t Hge)].
+  unfold all_done in Had. rewrite forallb_forall in Had.
+  specialize (Had t ltac:(apply in_seq; lia)). unfold stack_empty in Had. destruct (stk s t); [reflexivity|discriminate].
+Qed.
+
+(* the word holds at most one waiter: a caller and an acceptor are never both left waiting *)
+Lemma inv_rendezvous s i j : Inv s -> (forall t, stk s t = []) ->
+  is_caller_kind (kd s i) = true -> kd s j = TAccept ->
+  length (delivered s i) = 1 \/ length (delivered s j) = 1.
+Proof.
+  intros I Hall Hi Hj.
+  destruct (inv_terminal s I Hall i) as [[H _]|(Hwi & _)]; [unfold party; now rewrite (caller_party _ Hi)|now left|].
+  destruct (inv_terminal s I Hall j) as [[H _]|(Hwj & _)]; [unfold party; now rewrite Hj|now right|].
+  exfalso. unfold word_of in *. rewrite Hi in Hwi. rewrite Hj in Hwj. simpl in Hwj. congruence.
+Qed.
+
+(* a party whose stop was requested is not left waiting *)
+Lemma inv_stop_completes s k : Inv s -> (forall t, stk s t = []) -> party s k = true ->
+  stopreq s k = true -> length (delivered s k) = 1.
+Proof.
+  intros I Hall Hp Hs. destruct (inv_terminal s I Hall k Hp) as [[H _]|(_ & _ & H)]; [exact H|congruence].
+Qed.
+
+(* an accepted call completes, and with value *)
+Lemma inv_accepted_value s i : Inv s -> (forall t, stk s t = []) -> hs s = false ->
+  is_caller_kind (kd s i) = true -> accepted s i -> delivered s i = [RValue].
+Proof.
+  intros I Hall Hhs Hk [x Hx]. pose proof I as (I0 & I1 & I2 & I3 & I4 & I5).
+  destruct (inv_taken_caller s i x I Hk Hx) as (Hs & Hc & Hnd).
+  destruct (inv_terminal s I Hall i) as [[Hl _]|(Hw & _)]; [unfold party; now rewrite (caller_party _ Hk)| |].
+  - destruct (delivered s i) as [|r [|? ?]] eqn:Ed; simpl in Hl; try lia. f_equal.
+    destruct (i4_d s I4 i r ltac:(rewrite Ed; now left)) as [He|(Hh & _)]; [|congruence].
+    unfold expected in He. rewrite Hk, Hs in He. exact He.
+  - exfalso. unfold word_of in Hw. rewrite Hk in Hw.
+    destruct (inw_call s i I1 I2 Hw) as (_ & _ & Hp & Hcc & _).
+    destruct Hc as [Hc|Hc]; [congruence|lia].
+Qed.
+
+(* ------------------------------------------------------------------------------------------ *)
+(* the program does not change; std::terminate needs two callers or two acceptors              *)
+
+Lemma step_const t s s' e : step t s = Some (s', e) -> kd s' = kd s /\ hs s' = hs s /\ nthr s' = nthr s.
+Proof. intros H. step_cases H; repeat split; reflexivity. Qed.
+
+Definition Const (hsb : bool) (prog : list tkind) (s : st) : Prop :=
+  kd s = (fun t => nth t prog TNone) /\ hs s = hsb /\ nthr s = length prog.
+
+Lemma const_reachable hsb prog sched : Const hsb prog (fst (run step sched (init hsb prog, []))).
+Proof.
+  apply (run_invariant_state st nat ev step (Const hsb prog)).
+  - intros s t s' e (A & B & C) Hs. destruct (step_const _ _ _ _ Hs) as (A' & B' & C').
+    unfold Const. rewrite A', B', C'. auto.
+  - repeat split.
+Qed.
+
+Definition one_caller (s : st) := forall a b, is_caller_kind (kd s a) = true -> is_caller_kind (kd s b) = true -> a = b.
+Definition one_acceptor (s : st) := forall a b, kd s a = TAccept -> kd s b = TAccept -> a = b.
+
+Lemma step_no_abort t s s' e : Inv s -> one_caller s -> one_acceptor s ->
+  step t s = Some (s', e) -> aborted s' = false.
+Proof.
+  intros (I0 & I1 & I2 & _) Hoc Hoa H. pose proof (i1_w s I1) as Hw0. unfold word_ok in Hw0.
+  begin_step H I0; norm; try exact Hab.
+  all: exfalso; destruct (kd s t) eqn:Ek; cbn [decide] in Hdec; destruct (w s) eqn:Ew; try discriminate Hdec.
+  all: match goal with
+       | Hx : is_caller_kind (kd _ ?i) = true |- _ =>
+           assert (i = t) by (apply Hoc; [exact Hx|rewrite Ek; reflexivity]); subst i;
+           destruct (inw_call s t I1 I2 Ew) as (_ & _ & _ & _ & Hl)
+       | Hx : kd _ ?j = TAccept |- _ =>
+           assert (j = t) by (apply Hoa; [exact Hx|exact Ek]); subst j;
+           destruct (inw_acc s t I1 I2 Ew) as (_ & _ & _ & _ & Hl)
+       end; rewrite Hst, cnt_cons in Hl; simpl in Hl; lia.
+Qed.
+
+Theorem no_abort hsb prog sched :
+  let s := fst (run step sched (init hsb prog, [])) in
+  one_caller (init hsb prog) -> one_acceptor (init hsb prog) -> aborted s = false.
+Proof.
+  intros s Hoc Hoa. subst s.
+  assert (G : forall sched, let s := fst (run step sched (init hsb prog, [])) in aborted s = false).
+  { clear sched. intros sched.
+    apply (run_invariant_state st nat ev step
+             (fun s => Inv s /\ Const hsb prog s /\ aborted s = false)).
+    - intros s t s' e (I & C & A) Hs. split; [eapply inv_step; eauto|]. split.
+      + destruct C as (A1 & B1 & C1). destruct (step_const _ _ _ _ Hs) as (A' & B' & C').
+        unfold Const. rewrite A', B', C'. auto.
+      + eapply step_no_abort; eauto.
+        * intros a b. destruct C as (-> & _). apply Hoc.
+        * intros a b. destruct C as (-> & _). apply Hoa.
+    - split; [apply inv_init|]. split; [repeat split|reflexivity]. }
+  apply G.
+Qed.
+
+(* a successful stop() touches nobody else: the word goes back to idle, the other parties' state is unchanged *)
+Lemma stop_is_local t s s' e k rest : stk s t = MStopCas k :: rest -> aborted s = false ->
+  w s = word_of s k -> step t s = Some (s', e) ->
+  w s' = WIdle /\
+  forall k', k' <> k -> slot s' k' = slot s k' /\ delivered s' k' = delivered s k' /\ ccomp s' k' = ccomp s k' /\
+                        cstop s' k' = cstop s k' /\ cstart s' k' = cstart s k' /\ taken s' k' = taken s k' /\
+                        tres s' k' = tres s k' /\ (k' <> t -> stk s' k' = stk s k').
+Proof.
+  intros Hst Hab Hw H. unfold step in H. rewrite Hab, Hst in H. cbv zeta in H.
+  destruct (word_eqb_spec (w s) (word_of s k)); [|contradiction].
+  injection H as <- _. norm. split; [reflexivity|]. intros k' Hne.
+  repeat split; try reflexivity.
+  - destruct (is_caller_kind (kd s k)); [reflexivity|]. now rewrite upd_other.
+  - intros Hne'. now rewrite upd_other.
+Qed.
+
+(* slots belong to parties, try results to the others *)
+Record Inv6 (s : st) : Prop := {
+  i6_sp : forall x, slot s x <> None -> party s x = true;
+  i6_tp : forall x, tres s x <> None -> party s x = false
+}.
+
+Lemma step_inv6 t s s' e : Inv s -> Inv6 s -> step t s = Some (s', e) -> Inv6 s'.
+Proof.
+  intros (I0 & I1 & I2 & I3 & _) I6 H. pose proof (i1_w s I1) as Hw0. unfold word_ok in Hw0.
+  constructor; begin_step H I0.
+  all: intros x0; pose proof (i6_sp s I6 x0) as Hs; pose proof (i6_tp s I6 x0) as Ht;
+       unfold party in *; norm; try assumption.
+  all: try (match goal with Hc : word_eqb (w ?s) ?v = true |- _ =>
+         destruct (word_eqb_spec (w s) v) as [Hw|]; [|discriminate Hc] end; rewrite Hw in Hw0).
+  all: unfold upd; case_eqb; try assumption; intros HH.
+  all: try (rewrite Hk; reflexivity); try (rewrite Hw0; reflexivity); try (apply caller_party; assumption).
+  all: try (destruct (kd s t) eqn:Ek; cbn [decide] in Hdec; try discriminate Hdec; try reflexivity; destruct (w s); discriminate Hdec).
+  - destruct c; [|exact (Hs HH)].
+    destruct (Nat.eqb_spec x0 k) as [->|]; [|exact (Hs HH)].
+    apply caller_party. apply (i3_x s I3 t k). rewrite Hst. now left.
+  - destruct (is_caller_kind (kd s k)) eqn:Eck; [exact (Hs HH)|].
+    destruct (Nat.eqb_spec x0 k) as [->|]; [|exact (Hs HH)].
+    unfold word_of in Hw0. rewrite Eck in Hw0. now rewrite Hw0.
+Qed.
+
+Lemma inv6_init hsb prog : Inv6 (init hsb prog).
+Proof. constructor; simpl; congruence. Qed.
+
+Definition InvAll (s : st) : Prop := Inv s /\ Inv6 s.
+
+Theorem invall_reachable hsb prog sched : InvAll (fst (run step sched (init hsb prog, []))).
+Proof.
+  apply (run_invariant_state st nat ev step InvAll).
+  - intros s t s' e [Hi H6] Hs. split; [eapply inv_step; eauto|eapply step_inv6; eauto].
+  - split; [apply inv_init|apply inv6_init].
+Qed.
+
+(* at a terminal state with an unstoppable hop: a call completed with value iff some consumer
+   (an accept that completed, or a try_accept that returned) received exactly its payload *)
+Lemma inv_value_iff_received s i : InvAll s -> (forall t, stk s t = []) -> hs s = false ->
+  is_caller_kind (kd s i) = true ->
+  (delivered s i = [RValue] <-> exists x, received s x i).
+Proof.
+  intros [I I6] Hall Hhs Hk. pose proof I as (I0 & I1 & I2 & I3 & I4 & I5). split.
+  - intros Hd. destruct (inv_value_accepted s i I Hk ltac:(rewrite Hd; now left)) as [x Hx].
+    exists x. destruct Hx as [Hs|Ht]; [left|right; exact Ht].
+    assert (Hp : party s x = true) by (apply (i6_sp s I6); congruence).
+    destruct (inv_terminal s I Hall x Hp) as [[Hl _]|(Hw & _)].
+    + destruct (delivered s x) as [|r [|? ?]] eqn:Ed; simpl in Hl; try lia.
+      rewrite (inv_acceptor_delivers_payload s x i r I Hhs Hs ltac:(rewrite Ed; now left)). now left.
+    + exfalso. assert (w s <> WIdle) by (rewrite Hw; unfold word_of; destruct (is_caller_kind (kd s x)); intro HH; discriminate HH).
+      destruct (inv_word_live s x I Hw H) as (_ & _ & _ & Hn & _). congruence.
+  - intros [x Hx]. apply (inv_accepted_value s i I Hall Hhs Hk). exists x. apply received_holds; assumption.
+Qed.
